@@ -10,7 +10,9 @@ import Bng.Model.HaSync
     broadcast                => sent <seq> | dropped <seq> | noclient <seq> | empty
     fullsync                 => ok <table>
     attach                   => ok | already
-    deliver                  => add s1 v3 <seq> | update s1 v3 <seq> | delete s1 <seq> | empty | noclient
+    deliver                  => add s1 v3 <seq> | update s1 v3 <seq> | delete s1 <seq> | heartbeat <seq> | empty | noclient
+    heartbeat                => sent <seq> | dropped <seq> | noclient      (broadcastLoop's keep-alive)
+    streamfull               => ok <table> | noclient                      (a `full` message handed to handleSSEData)
     disconnect               => ok | notconnected
     store | recv | active    => <table>            table = s1=3,s2=4 sorted by id, or -
   end to end over loopback                       (`e2e`)
@@ -35,7 +37,7 @@ structure St where
 def showT (t : Table) : String := showTable (sorted t)
 
 def showKind : Kind → String
-  | .add => "add" | .update => "update" | .delete => "delete"
+  | .add => "add" | .update => "update" | .delete => "delete" | .heartbeat => "heartbeat"
 
 def showObs : Obs → String
   | .ok => "ok" | .full => "full" | .already => "already" | .notconnected => "notconnected"
@@ -46,6 +48,7 @@ def showObs : Obs → String
   | .synced t => s!"ok {showT t}"
   | .applied m => match m.kind with
     | .delete => s!"delete s{m.key} {m.seq}"
+    | .heartbeat => s!"heartbeat {m.seq}"
     | k => s!"{showKind k} s{m.key} v{m.val} {m.seq}"
 
 def parseTable (s : String) : Option (List (Nat × Nat)) :=
@@ -66,18 +69,41 @@ def opOfChange : Kind × Nat × Nat → Op
   | (.add, k, v) => .add k v
   | (.update, k, v) => .update k v
   | (.delete, k, _) => .delete k
+  | (.heartbeat, _, _) => .heartbeat
 
-/-- the clause under which a verdict is attributed to a recorded finding: decided on the MODEL's history
-    variables after the step (see Bng.Spec.C13.excl_D42 / excl_D43 / excl_D43_stream) -/
-def clause (m : HaSync.State) (verdict : String) : String :=
-  if verdict == "order" then (if m.dropEpoch then "D43" else "none")
-  else if verdict == "diverged" then (if m.lostFull then "D43" else if m.gapLost then "D42" else "none")
+/-- sessions on which two tables (sorted association lists) differ -/
+def diffKeys (a b : List (Nat × Nat)) : List Nat :=
+  ((a.map (·.1)) ++ (b.map (·.1))).eraseDups.filter fun k => a.lookup k != b.lookup k
+
+/-- the clause under which a verdict is attributed to a recorded finding, decided on the MODEL's history variables
+    after the step (Bng.Spec.C13.excl_D42 / excl_D43 / excl_D43_stream), narrowed to what actually failed:
+    `diverged` — every session on which the standby differs from the active must be in the scope of the finding;
+    `order`    — every change the standby skipped must be one the full client channel dropped in this attachment. -/
+def clause (m : HaSync.State) (verdict : String) (differing : List Nat) (skipped : List Nat) : String :=
+  if verdict == "order" then
+    (if !skipped.isEmpty && skipped.all (fun sq => m.dropped.any (·.seq == sq)) then "D43" else "none")
+  else if verdict == "diverged" then
+    (if differing.isEmpty then "none"
+     else if differing.all (fun k => m.gapKeys.contains k) then "D42"
+     else if differing.all (fun k => m.fullKeys.contains k) then "D43"
+     else if differing.all (fun k => m.gapKeys.contains k || m.fullKeys.contains k) then "D43"
+     else "none")
   else "none"
 
 def finish (st : St) (m' : HaSync.State) (shown : String) (evs : List Ev) : St × LineResult :=
   let (mon', vs) := checkAll st.mon evs
+  -- what failed, for the attribution
+  let differing := evs.foldl (fun acc e => match e with
+    | .table l => acc ++ diffKeys l (sorted st.mon.act)
+    | _ => acc) []
+  let before := (st.mon.strm.getD []).map (·.seq)
+  let after := (mon'.strm.getD []).map (·.seq)
+  let appliedSeq := evs.foldl (fun acc e => match e with
+    | .applied _ _ _ sq => some sq
+    | _ => acc) (none : Option Nat)
+  let skipped := before.filter fun sq => !after.contains sq && some sq != appliedSeq
   ({ st with model := some m', mon := mon' },
-   { modelObs := shown, viols := vs.map fun (n, d) => (n, clause m' n, d) })
+   { modelObs := shown, viols := vs.map fun (n, d) => (n, clause m' n differing skipped, d) })
 
 /-- drain: the broadcaster empties the change queue, the stream delivers what it holds -/
 def drain (fuel : Nat) (m : HaSync.State) : HaSync.State :=
@@ -108,6 +134,17 @@ def stepMsg (st : St) (m : HaSync.State) (toks : List String) (impl : String) : 
         | none => .nop
       | _ => .nop
     finish st m' (showObs o) [ev]
+  | ["streamfull"] =>
+    let (m', o) := HaSync.streamFull m
+    let ev := match itoks with
+      | ["ok", t] => match parseTable t with
+        | some l => Ev.fullSynced l
+        | none => .nop
+      | _ => .nop
+    finish st m' (showObs o) [ev]
+  | ["heartbeat"] =>
+    let (m', o) := HaSync.heartbeat m
+    finish st m' (showObs o) []
   | ["attach"] =>
     let (m', o) := HaSync.attach m
     finish st m' (showObs o) [if impl == "ok" then .attached else .nop]
